@@ -68,7 +68,7 @@ Accepted(c) ==         \* grants the token endpoint does not answer with unsuppo
   \cup (IF c.caps.dev THEN {"device_code"} ELSE {})
 
 GoodConfig(c) == [issuerDoc |-> "same", issuerToken |-> "same", badEndpoints |-> <<>>, grantsAdv |-> SetToSeq(Advertised(c)), grantsAcc |-> SetToSeq(Accepted(c)),
-                  s256Adv |-> c.flags.s256, s256OK |-> TRUE, plainOK |-> TRUE, reqobjAdv |-> c.flags.reqobj, reqobjOK |-> c.flags.reqobj, panic |-> FALSE]
+                  s256Adv |-> c.flags.s256, s256OK |-> TRUE, plainOK |-> TRUE, reqobjAdv |-> c.flags.reqobj, reqobjOK |-> c.flags.reqobj, reqobjInnerOK |-> c.flags.reqobj, issuerImplicit |-> "same", panic |-> FALSE]
 
 IssuerAccepted(c) == /\ c.scheme = "https" \/ (c.scheme = "http" /\ c.insecure)
                      /\ c.host # "nohost"
@@ -83,10 +83,14 @@ Outcomes(c) ==
 RulesConfig(c, o) ==
   { <<"C19.issuer.document",  o.issuerDoc = "same">>,
     <<"C19.issuer.tokens",    o.issuerToken = "same">>,
+    \* ... also in the ID token the implicit flow hands out at the authorize callback
+    <<"C19.issuer.implicit",  o.issuerImplicit = "same">>,
     <<"C19.endpoints.served", o.badEndpoints = <<>>>>,
     <<"C19.grants.exact",     Range(o.grantsAdv) \cap TokenGrants = Range(o.grantsAcc)>>,
     <<"C19.pkce.honoured",    o.s256Adv => o.s256OK>>,
     <<"C19.reqobj.honoured",  o.reqobjAdv => o.reqobjOK>>,
+    \* ... also when a parameter (redirect_uri) travels inside the signed object only
+    <<"C19.reqobj.inner",     o.reqobjAdv => o.reqobjInnerOK>>,
     <<"C09.nopanic", ~o.panic>> }
 RulesIssuer(c, o) ==
   { <<"C19.issuer.rejected", (\/ c.scheme \notin {"https", "http"} \/ c.host = "nohost"                    \* empty, host-less, not a web origin
